@@ -429,6 +429,8 @@ def complex_stream(ck, qr, numpy, m):
         ctx = Hamiltonian(data=Hc.copy()) if rng.random() < 0.5 else SelfAdjointOperator(data=Hc.copy())
         ctx2 = SelfAdjointOperator(data=Oc.copy())
         Ad = numpy.array([[rng.randint(-4, 4) / 4.0 + 1j * rng.randint(-4, 4) / 4.0 for _ in range(n)] for _ in range(n)])
+        if h % 3 == 1:
+            Ad = numpy.array([[rng.randint(-4, 4) / 4.0 for _ in range(n)] for _ in range(n)])      # a real operator in a complex context
         A = Operator(data=Ad.copy())
         rd = cherm(n); rd = rd @ rd.conj().T; rd = rd / numpy.trace(rd).real
         rho = ReducedDensityMatrix(data=rd.copy())
@@ -588,6 +590,100 @@ def scripted_stream(ck, qr, numpy, m):
                         [list(m.basis_stack), sorted(m.basis_registered), m.current_basis_operator is not None])
                 m.basis_stack[:] = [0]; m.basis_transformations[:] = [1]; m.basis_registered.clear()
                 m._in_eigenbasis_of_context = False; m.current_basis_operator = None
+    def reset_book():
+        m.basis_stack[:] = [0]; m.basis_transformations[:] = [1]; m.basis_registered.clear()
+        m._in_eigenbasis_of_context = False; m.current_basis_operator = None
+
+    def book_ok():
+        return len(m.basis_stack) == 1 and not m.basis_registered and m.current_basis_operator is None and not m._in_eigenbasis_of_context
+    # ---- the library's own pattern (protect the Hamiltonian, enter its eigenbasis) used while another context is open ---------------------
+    for variant in ("normal", "exception"):
+        c1 = SelfAdjointOperator(data=symm() + numpy.diag([0.0, 1.0, 2.5]))
+        pd_ = symm() + numpy.diag([0.0, 2.0, 3.0]); P = Hamiltonian(data=pd_.copy())
+        a0 = symm(); A = Operator(data=a0.copy())
+        inp = {"script": "protect_basis(); with eigenbasis_of(other): with eigenbasis_of(protected): ...; unprotect_basis()", "exit": variant}
+        ck.case(("script-protected-nested", variant), nontrivial=True, kind="scripted", cls="Hamiltonian", nesting=2)
+        try:
+            P.protect_basis()
+            try:
+                with eigenbasis_of(c1):
+                    A.data
+                    with eigenbasis_of(P):
+                        A.data
+                        if variant == "exception":
+                            raise Boom()
+            except Boom:
+                pass
+            P.unprotect_basis()
+            devs = [float(numpy.abs(numpy.asarray(P._data) - pd_).max()), float(numpy.abs(numpy.asarray(A._data) - a0).max())]
+            if max(devs) > 1e-9 or P.get_current_basis() != 0:
+                ck.fail("script:protected-nested:restore", "a protected operator used as the operator of a nested context (or another object) is not back in its "
+                        "original representation after all contexts were left", inp, devs)
+            with eigenbasis_of(P):
+                dd_ = numpy.array(P.data)
+            if numpy.abs(dd_ - numpy.diag(numpy.linalg.eigvalsh(pd_))).max() > 1e-9:
+                ck.fail("script:protected-nested:re-entry", "after the script the operator's own context no longer presents it diagonal with its eigenvalues", inp)
+        except Exception as e:
+            ck.fail("raises:script:protected-nested", "raised %r" % (e,), inp)
+            try:
+                P.unprotect_basis()
+            except Exception:
+                pass
+        if not book_ok():
+            ck.fail("script:protected-nested:bookkeeping", "bookkeeping not restored", inp); reset_book()
+    # ---- ONE context object entered several times: after the operator was given new values, and inside another context --------------------
+    for variant in ("data-changed", "other-enclosing-context"):
+        hd = symm() + numpy.diag([0.0, 2.0, 3.0]); hd2 = symm() + numpy.diag([3.0, 0.0, 1.0])
+        H1 = Hamiltonian(data=hd.copy()); c1 = SelfAdjointOperator(data=symm() + numpy.diag([0.0, 1.0, 2.5]))
+        rd_ = symm(); rd_ = rd_ @ rd_.T; rho = ReducedDensityMatrix(data=rd_.copy())
+        inp = {"script": "ctx = eigenbasis_of(H); with ctx: ...; (%s); with ctx: ..." % variant}
+        ck.case(("script-reentered-context-object", variant), nontrivial=True, kind="scripted", cls="Hamiltonian", nesting=2)
+        try:
+            ctx = eigenbasis_of(H1)
+            with ctx:
+                H1.data; rho.data
+            want_h = hd
+            if variant == "data-changed":
+                H1.data = hd2.copy(); want_h = hd2
+                with ctx:
+                    hin = numpy.array(H1.data).copy(); rin = numpy.array(rho.data).copy()
+            else:
+                with eigenbasis_of(c1):
+                    rho.data
+                    with ctx:
+                        hin = numpy.array(H1.data).copy(); rin = numpy.array(rho.data).copy()
+            ev, Sv = numpy.linalg.eigh(want_h)
+            pops = numpy.array([Sv[:, k_] @ rd_ @ Sv[:, k_] for k_ in range(N)])
+            if numpy.abs(hin - numpy.diag(ev)).max() > 1e-9 or numpy.abs(numpy.diag(rin) - pops).max() > 1e-9:
+                ck.fail("script:reentered-context-object:inside", "a context object entered a second time does not present its operator diagonal with ascending "
+                        "eigenvalues / the state in that basis", inp, [numpy.diag(hin).tolist(), numpy.diag(rin).tolist()], [ev.tolist(), pops.tolist()])
+            if numpy.abs(numpy.asarray(H1._data) - want_h).max() > 1e-9 or numpy.abs(numpy.asarray(rho._data) - rd_).max() > 1e-9:
+                ck.fail("script:reentered-context-object:restore", "objects not restored after a context object was entered a second time", inp)
+        except Exception as e:
+            ck.fail("raises:script:reentered-context-object", "raised %r" % (e,), inp)
+        if not book_ok():
+            ck.fail("script:reentered-context-object:bookkeeping", "bookkeeping not restored", inp); reset_book()
+    # ---- whole-number data (an initial state written as 1 and 0): presented in the context's basis, trace one, restored ----------------------
+    for variant in ("list of ints", "integer array"):
+        c1 = SelfAdjointOperator(data=symm() + numpy.diag([0.0, 1.0, 2.5]))
+        ri = [[1, 0, 0], [0, 0, 0], [0, 0, 0]]
+        inp = {"script": "ReducedDensityMatrix(data=%s of 1 and 0) inside eigenbasis_of" % variant}
+        ck.case(("script-integer-state", variant), nontrivial=True, kind="scripted", cls="ReducedDensityMatrix", nesting=1)
+        try:
+            rho = ReducedDensityMatrix(data=ri if variant == "list of ints" else numpy.array(ri, dtype=int))
+            with eigenbasis_of(c1):
+                rin = numpy.array(rho.data, dtype=complex).copy()
+                S = numpy.array(m.basis_transformations[-1], dtype=float)
+            want_in = S.T @ numpy.array(ri, dtype=float) @ S
+            if numpy.abs(rin - want_in).max() > 1e-9 or abs(numpy.trace(rin) - 1.0) > 1e-9:
+                ck.fail("script:integer-state:inside", "a state given as whole numbers is not presented in the context's basis (trace %.3g inside)" % abs(numpy.trace(rin)),
+                        inp, numpy.real(rin).tolist(), want_in.tolist())
+            if numpy.abs(numpy.asarray(rho._data, dtype=complex) - numpy.array(ri)).max() > 1e-9:
+                ck.fail("script:integer-state:restore", "a state given as whole numbers is not restored after the context", inp, numpy.real(numpy.asarray(rho._data)).tolist(), ri)
+        except Exception as e:
+            ck.fail("raises:script:integer-state", "raised %r" % (e,), inp)
+        if not book_ok():
+            ck.fail("script:integer-state:bookkeeping", "bookkeeping not restored", inp); reset_book()
     # ---- a basis context entered while energy units other than the internal ones are active: still the eigenbasis of the operator ------
     from quantarhei import energy_units
     for uctx in ("1/cm", "eV", "nm", "THz"):
